@@ -1,12 +1,12 @@
 """C16 plan (see lib/plan.py for the format)."""
-from plan import R, D, M, stages
+from plan import R, D, M, T, stages
 import fuzzstage
 
 PLAN = dict(
     extra={"thorough": [fuzzstage.diff_stage(6, "C16")]},
     **stages(
-        quick=[(R, "quick", 16), (D, "small", 16)],
-        thorough=[(R, "thorough", 16), (D, "quick", 16), (M, "mini", 8)],
+        quick=[(R, "quick", 16), (D, "small", 16), (T, "small", 16)],
+        thorough=[(R, "thorough", 16), (D, "quick", 16), (T, "quick", 16), (M, "mini", 8)],
     ),
     rule=("cases are generated pbulk-index documents of 0-8 records in which every value and list item "
           "embeds a unique id (record, key, line number): any subset/order of the 15 known keys, repeated "
